@@ -1407,13 +1407,31 @@ class XsdAtomicRestriction(XsdAtomic):
                         base_type = self.maps.any_simple_type
                 elif base_type.is_complex():
                     if base_type.admit_simple_restriction():
+                        content_type = self.builders.simple_type_factory(
+                            child, self.schema, self
+                        )
+                        if base_type.has_simple_content():
+                            # A restriction keeps the variety (a list is not a
+                            # restriction of its item type, also for union members)
+                            base_content = base_type.content
+                            if isinstance(base_content, XsdUnion) and \
+                                    content_type.variety != 'union':
+                                varieties = {mt.variety for mt in base_content.member_types
+                                             if content_type.is_derived(mt)}
+                            else:
+                                varieties = {base_content.variety}
+
+                            if None not in varieties and content_type.variety not in varieties \
+                                    or not content_type.is_derived(base_content, 'restriction'):
+                                msg = _("the simpleType child is not a restriction "
+                                        "of the content type of the base type")
+                                self.parse_error(msg, child)
+
                         base_type = self.builders.complex_type_class(
                             elem=elem,
                             schema=self.schema,
                             parent=self,
-                            content=self.builders.simple_type_factory(
-                                child, self.schema, self
-                            ),
+                            content=content_type,
                             attributes=base_type.attributes,
                             mixed=base_type.mixed,
                             block=base_type.block,
